@@ -235,3 +235,34 @@ func (cl *Cluster) StoredSignatures(i int, batch string) map[string][][]byte {
 	}
 	return out
 }
+
+// RunToQuiescenceWith: like RunToQuiescence, the callback performs the answer itself.
+func (cl *Cluster) RunToQuiescenceWith(pick func(cands []int) int, answer func(i int, o *ctypes.Operation) (bool, error)) {
+	for guard := 0; guard < 10000; guard++ {
+		var cands []int
+		for i := range cl.Nodes {
+			msgs, _ := cl.boardOf(i).GetMessages(cl.Offsets[i])
+			if len(msgs) > 0 {
+				cands = append(cands, i)
+			}
+		}
+		progressed := false
+		if len(cands) > 0 {
+			cl.Deliver(cands[pick(cands)])
+			progressed = true
+		}
+		for i := range cl.Nodes {
+			for _, o := range cl.Pending(i) {
+				done, err := answer(i, o)
+				if done && err == nil {
+					progressed = true
+				}
+				break
+			}
+		}
+		if !progressed {
+			return
+		}
+	}
+	panic("cluster did not quiesce")
+}
